@@ -567,7 +567,7 @@ fn bits_view_case(rep: &mut Report, rng: &mut Rng, content: &[u8], blen: usize, 
 pub fn run(rep: &mut Report, tier: &str, seed: u64, shard: u64, nshards: u64, miri: bool) {
     rep.rule = "exhaustive: (src bytes, dst bytes) in 0..=MAXB with 4 fill pairs x (src_off, dst_pos, len) in [0,GRID]^3 through every tuple entry point (read and write) incl. out-of-range; random tuples to 64 bytes; random BitBuffer/Bits histories mirrored on a Vec<bool>. distinct = distinct (entry point, sizes, offsets, len) with len > 0, resp. distinct histories of >= 3 operations".into();
     let (maxb, grid, nrand, nhist) = if miri {
-        (2usize, 17usize, 300u64, 60u64)
+        (2usize, 4usize, 40u64, 8u64)
     } else if tier == "quick" {
         (3, 33, 100_000 / nshards, 20_000 / nshards)
     } else {
